@@ -83,6 +83,14 @@ SimpleMenuOf(pf) ==
           Include("m", <<>>, << <<"z", I(5)>> >>), Include("m", <<V("a")>>, <<>>),
           Debug(Call("f", <<I(1)>>, <<>>)), Debug(Call("f", <<>>, << <<"a", I(2)>> >>)), Debug(Call("f", <<I(1), I(2)>>, <<>>)),
           Return(V("a")), Return(Bin("+", V("a"), V("b"))), Content(<<I(7)>>), Content(<<>>)}
+    [] pf = "loopret" ->    \* @return leaves every enclosing loop at once; what follows in the loop is never executed
+         {Return(V("i")), Return(V("x")), Debug(V("i")), Debug(Call("f", <<>>, <<>>)), Decl("x", I(0), FALSE, FALSE),
+          Decl("x", Bin("+", V("x"), I(1)), FALSE, FALSE)}
+    [] pf = "args2" ->      \* order of parameter binding: a default that names a LATER parameter reads the outer variable
+         {Decl("b", I(8), TRUE, FALSE), Decl("a", I(9), FALSE, FALSE), Debug(V("a")), Debug(V("b")), Return(V("a")),
+          Include("m", <<>>, << <<"b", I(4)>> >>), Include("m", <<>>, <<>>), Include("m", <<I(1)>>, <<>>),
+          Include("m", <<>>, << <<"b", I(4)>>, <<"a", I(5)>> >>),
+          Debug(Call("f", <<>>, << <<"b", I(2)>> >>)), Debug(Call("f", <<>>, <<>>)), Debug(Call("f", <<I(1)>>, << <<"b", I(2)>> >>))}
     [] pf = "ops" ->
          {Debug(Flat(<<I(1), V("x"), V("y")>>, <<"+", "*">>)), Debug(Flat(<<V("x"), V("y"), I(1)>>, <<"*", "+">>)),
           Debug(Flat(<<I(7), V("x"), V("y")>>, <<"-", "-">>)), Debug(Flat(<<I(7), V("y"), V("x")>>, <<"%", "*">>)),
@@ -124,11 +132,17 @@ BlockMenuOf(pf) ==
           Mixin("m", <<>>, "r"),
           Function("f", <<Prm("a")>>, ""), Function("f", <<Prm("a"), PrmD("b", Bin("+", V("a"), I(1)))>>, ""),
           IncludeB("m", <<I(1)>>, <<>>, <<"a">>), IncludeB("m", <<I(1)>>, <<>>, <<>>)}
+    [] pf = "loopret" ->
+         {Function("f", <<>>, ""), For("i", I(1), I(3), TRUE), For("i", I(3), I(1), TRUE), Each(<<"i">>, ListX(<<I(4), I(5)>>, "comma")),
+          While(Bin("<", V("x"), I(2))), If(Bin("==", V("i"), I(2)))}
+    [] pf = "args2" ->
+         {Mixin("m", <<PrmD("a", V("b")), PrmD("b", I(6))>>, ""), Mixin("m", <<PrmD("a", V("b")), PrmD("b", V("a"))>>, ""),
+          Function("f", <<PrmD("a", Bin("+", V("b"), I(1))), PrmD("b", I(6))>>, "")}
     [] pf = "ops" ->
          {Rule(".r"), If(Flat(<<V("x"), I(2), V("y"), I(9)>>, <<"==", "and", "==">>)), While(F)}
     [] OTHER -> {}
 
-Profiles == {"scope", "scope2", "closure", "control", "args", "ops", "diag"}
+Profiles == {"scope", "scope2", "closure", "control", "args", "args2", "loopret", "ops", "diag"}
 SimpleMenu == IF Profile = "full" THEN UNION {SimpleMenuOf(q) : q \in Profiles} ELSE SimpleMenuOf(Profile)
 BlockMenu == IF Profile = "full" THEN UNION {BlockMenuOf(q) : q \in Profiles} ELSE BlockMenuOf(Profile)
 
